@@ -87,6 +87,7 @@ class Run:
         self.sinks = {}          # thread ident -> per-thread event list (inside a `par` statement)
         self.gseq = 0
         self.par_info = []
+        self.retained = []
 
     # ------------------------------------------------------------------ util
     def ev(self, **kw):
@@ -140,7 +141,7 @@ class Run:
     def query(self, builder, fr, st):
         kind = st['kind']
         p = st['p']
-        fn = self.sb.path(p)
+        fn = _spell(self.sb.path(p), st.get('spell'))
         cmp_ = st.get('cmp', 'METADATA')
         td = bool(st.get('td', True))
         how = st.get('how', 'declare')
@@ -225,6 +226,10 @@ class Run:
         f = st['f']
         args = list(st.get('args', []))
         kw = dict(st.get('kw', {}))
+        if 'args_t' in st:          # arguments given as type-exact terms (subclass instances survive a replay file)
+            args = [terms.from_term(t) for t in st['args_t']]
+        if 'kw_t' in st:
+            kw = {k: terms.from_term(t) for k, t in st['kw_t'].items()}
         ver = (self.cur.get('vers') or {}).get(f)
         state = {'invoked': False, 'exc': None}
         run = self
@@ -346,6 +351,10 @@ class Run:
                 for p in (st.get('paths') or self.universe):
                     for kind in st.get('kinds', ALL_KINDS):
                         q = {'kind': kind, 'p': p, 'cmp': st.get('cmp', 'HASH'), 'how': 'binary'}
+                        if (self.sc.get('oracle') or {}).get('q_spell') and p:
+                            # "probe all" spells some of the paths differently (bytes, PathLike, relative, x/../, //, ./)
+                            q['spell'] = (None, None, 'bytes', 'pathlike', 'rel', 'dblsep', 'dotdot', 'dot')[
+                                int(digest([p, kind, fr.n]), 16) % 8]
                         acc.append(self.obs_of_res(self.query(builder, fr, q)))
                 fr.obs.append(['probe', digest(acc)])
             elif s in ('bf', 'sb'):
@@ -384,6 +393,8 @@ class Run:
                 else:
                     v = 'r' + digest([fr.f, terms.show(fr.ver), fr.obs])
                 self.ev(ev='fn_end', out='return', v=terms.to_term(v), x=0, prop=False, err='')
+                if fr.kind != 'root' and (self.sc.get('oracle') or {}).get('mutate') and isinstance(v, (list, dict)):
+                    self.retained.append(v)      # the function keeps a reference to what it returned (C11)
                 return v
             elif s == 'raise':
                 x = self.new_exc()
@@ -641,9 +652,14 @@ class Run:
                 for fname in ('f0a', 'f0b', 'f1a', 'f1b', 'f2a'):
                     a_vers.setdefault(fname, 'late-%d' % self.build_no)
             try:
-                return run.run_frame(b, root)
+                rv = run.run_frame(b, root)
+                for kept in run.retained:       # ... and edits it later in the build; the records must not notice
+                    mutate_in_place(kept)
+                del run.retained[:]
+                return rv
             except BaseException as x:
                 state['exc'] = x
+                del run.retained[:]
                 raise
 
         old_tmp = os.environ.get('TMPDIR')
